@@ -289,6 +289,135 @@ def network_cases(tier):
     return out
 
 
+def _chain3_job(state, job):
+    """psi = A(i, j) B(j*, k) C(k*, l): <psi|psi> with psi conjugated as a whole, tensor by tensor, and zipped up site by site"""
+    prog, tier = state
+    A, B, C = job
+    w = World(prog)
+    wit = Witness()
+    where = (f"A(i, j): {A.describe()} label {A.label} ; B(j*, k): {B.describe()} label {B.label} ; "
+             f"C(k*, l): {C.describe()} label {C.label}")
+
+    def td(ev, a, b, axes):
+        return w.fn(ev, "symmray.interface:tensordot", a, b, axes=axes, preserve_array=True)
+
+    def bra(ev, x, dangling):
+        duals = [bool(ix.fields["_dual"]) for ix in x.fields["_indices"]]
+        c = w.meth(ev, x, "conj")
+        flip = [ax for ax in dangling if duals[ax]]
+        return w.meth(ev, c, "phase_flip", *flip) if flip else c
+
+    J = ((1,), (0,))
+    ALL = ((0, 1), (0, 1))
+    try:
+        ev = w.ev()
+
+        def parts():
+            return (A.build(w), B.build(w), C.build(w), bra(ev, A.build(w), (0,)), bra(ev, B.build(w), ()), bra(ev, C.build(w), (1,)))
+
+        def ket():
+            return td(ev, td(ev, A.build(w), B.build(w), J), C.build(w), J)
+
+        routes = {}
+        routes["K . conj(K)"] = _scalar(w, ev, td(ev, ket(), bra(ev, ket(), (0, 1)), ALL))
+        routes["conj(K) . K"] = _scalar(w, ev, td(ev, bra(ev, ket(), (0, 1)), ket(), ALL))
+        a, b, c, ac, bc, cc = parts()
+        routes["((A.B).C) . ((A*.B*).C*)"] = _scalar(w, ev, td(ev, td(ev, td(ev, a, b, J), c, J), td(ev, td(ev, ac, bc, J), cc, J), ALL))
+        a, b, c, ac, bc, cc = parts()
+        routes["(A*.(B*.C*)) . (A.(B.C))"] = _scalar(w, ev, td(ev, td(ev, ac, td(ev, bc, cc, J), J), td(ev, a, td(ev, b, c, J), J), ALL))
+        a, b, c, ac, bc, cc = parts()
+        e = td(ev, ac, a, ((0,), (0,)))          # (j', j)
+        e = td(ev, e, b, J)                      # (j', k)
+        e = td(ev, bc, e, ((0,), (0,)))          # (k', k)
+        e = td(ev, e, c, J)                      # (k', l)
+        routes["zip from the left, bra first"] = _scalar(w, ev, td(ev, e, cc, ALL))
+        a, b, c, ac, bc, cc = parts()
+        e = td(ev, c, cc, ((1,), (1,)))          # (k, k')
+        e = td(ev, b, e, J)                      # (j, k')
+        e = td(ev, e, bc, ((1,), (1,)))          # (j, j')
+        e = td(ev, a, e, J)                      # (i, j')
+        routes["zip from the right, ket first"] = _scalar(w, ev, td(ev, e, ac, ALL))
+        wit.tick("R10.7")
+        ref_name, ref = next(iter(routes.items()))
+        for name, val in routes.items():
+            if val != ref:
+                diff = [k for k in set(val) | set(ref) if val.get(k) != ref.get(k)][:1]
+                wit.bad(f"R10.7|route {name}", f"{where}: <psi|psi> along `{name}` differs from `{ref_name}` (e.g. product {diff})")
+        for name, val in routes.items():
+            diag = {k: v for k, v in val.items() if len(k) == 6 and sorted(x.lstrip("*") for x in k)[0::2] == sorted(x.lstrip("*") for x in k)[1::2]
+                    and sum(x.startswith("*") for x in k) == 3}
+            neg = [k for k, v in diag.items() if v != 1]
+            if neg or (val and not diag):
+                wit.bad(f"R10.7|sign {name}", f"{where}: along `{name}` a product |a b c|^2 enters <psi|psi> with coefficient "
+                                              f"{diag.get(neg[0]) if neg else 'none'} instead of +1 ({neg[:1]})")
+    except Unsupported as e:
+        raise AnalysisError(f"three-tensor norm outside the evaluable sub-language: {e}")
+    except Raised as e:
+        wit.bad("R10.7|refused", f"{where}: raises {e.what[:120]}")
+    except PYERR as e:
+        wit.bad("R10.7|fails", f"{where}: {type(e).__name__}: {e}")
+    except LayoutError as e:
+        wit.bad("R10.7|form", f"{where}: {e}")
+    return wit.w, wit.n
+
+
+def chain3_cases(tier):
+    import itertools
+
+    from engine.absops import partner
+
+    out = []
+    syms = ("Z2", "U1") if tier == "quick" else ("Z2", "U1", "Z2Z2", "U1U1")
+    perms = ((1, 2, 3), (3, 1, 2), (2, 3, 1)) if tier == "quick" else tuple(itertools.permutations((1, 2, 3)))
+    for sym in syms:
+        model = Model(sym)
+        charges = (model.combine(), NONTRIVIAL[sym])
+        for duals in itertools.product((False, True), repeat=2):
+            for ca, cb, cc in itertools.product(charges, repeat=3):
+                for la, lb, lc in perms:
+                    for kdual, ldual in (((False, True), (True, False)) if tier == "quick" else itertools.product((False, True), repeat=2)):
+                        A = Spec(sym, duals, ca, TABLES[sym][:2], fermionic=True, signs=1, tag="a", label=la)
+                        if not A.sectors():
+                            continue
+                        B = partner(A, 1, 1, charge=cb, tag="b")
+                        if B is None:
+                            continue
+                        B.label = lb
+                        B.duals = (B.duals[0], kdual)
+                        if not B.sectors():
+                            continue
+                        C = partner(B, 1, 1, charge=cc, tag="c")
+                        if C is None:
+                            continue
+                        C.label = lc
+                        C.duals = (C.duals[0], ldual)
+                        if C.sectors():
+                            out.append((A, B, C))
+    return out
+
+
+def check_chain3(prog, ctx):
+    from engine.parallel import pmap
+
+    cases = chain3_cases(ctx.tier)
+    ctx.need(len(cases) >= 100, f"R10.7: only {len(cases)} three-tensor chains")
+    wits, n = {}, 0
+    for wmap, cnt in pmap(_chain3_job, (prog, ctx.tier), cases):
+        for k, v in wmap.items():
+            wits.setdefault(k, v)
+        n += cnt.get("R10.7", 0)
+    f = prog.func("symmray.fermionic_core:FermionicArray.conj")
+    msg = ("three-tensor chains A(i,j) B(j*,k) C(k*,l): <psi|psi> is the same signed sum of products whether the contracted array or each "
+           "tensor is conjugated (bra-like dangling legs sign-flipped), in either operand order, with both groupings, and zipped up site by "
+           "site from either end, and every |a b c|^2 enters with +1")
+    mine = {k.split("|", 1)[1]: v for k, v in wits.items()}
+    if not mine:
+        ctx.check(True, "R10.7", f, f.node, "R10.7", f"{msg} ({n} chains x 6 routes)")
+    for fam, wmsg in sorted(mine.items()):
+        ctx.check(False, "R10.7", f, f.node, fam, f"{msg} — witness: {wmsg}")
+    return n
+
+
 def check_networks(prog, ctx):
     from engine.parallel import pmap
 
